@@ -271,15 +271,16 @@ fn aln_json(refs: &Vec<Vec<u8>>, k: usize, calls: &[(usize, usize, u8)], repeats
 
 fn sweep_aln(thorough: bool) -> (u64, Option<(String, String)>) {
     let mut n = 0u64;
-    let k = 5usize;
-    let h = 2usize;
-    let shapes: Vec<Vec<usize>> = if thorough {
-        vec![vec![9], vec![5, 7], vec![7, 3, 6], vec![6, 6], vec![2, 8], vec![8, 2, 5]]
+    // (k, contig lengths)
+    let shapes: Vec<(usize, Vec<usize>)> = if thorough {
+        vec![(5, vec![9]), (5, vec![12]), (5, vec![5, 7]), (5, vec![7, 3, 6]), (5, vec![6, 6]), (5, vec![2, 8]), (5, vec![8, 2, 5]),
+             (5, vec![9, 9]), (5, vec![5, 5, 5, 5]), (5, vec![7, 2, 9]), (7, vec![11]), (7, vec![9, 8]), (7, vec![7, 4, 10])]
     } else {
-        vec![vec![8], vec![6, 3, 6]]
+        vec![(5, vec![8]), (5, vec![6, 3, 6]), (7, vec![10])]
     };
     let letters = b"acgtACGTTGCAacgtnACGT";
-    for shape in shapes {
+    for (k, shape) in shapes {
+        let h = (k - 1) / 2;
         let mut refs: Vec<Vec<u8>> = Vec::new();
         let mut t = 0;
         for l in &shape {
